@@ -59,7 +59,11 @@ CHECKS["C02"] = dict(
          "(C02_classfield_agree), instantiated with the key generated from the current FieldMeta.__getitem__ "
          "(C02_src_classfield_today; a qualified-name key and a metaclass __eq__ are refuted). Both are exercised by "
          "deterministic lattices (class x declared subset x candidate x context; scenario x history x class x form x value) "
-         "whose observed outcomes are judged by the documented rule and compared with the model inside Coq.",
+         "whose observed outcomes are judged by the documented rule and compared with the model inside Coq. "
+         "uniqueItems is decided by == and never by hash (C02_unique_by_equality: uniq_check accepts exactly when no element is == "
+         "to an earlier one); a deterministic stream offers element pairs that are equal but hash / print differently (Structure "
+         "instances with equal content, 1 / 1.0 / True / Decimal(1), frozenset / set) and unequal pairs with equal hashes to every "
+         "uniqueItems collection kind.",
     design="DESIGN.md §6 C02",
     note="Trusted: Coq kernel + vm_compute; hand-written model Fields/SetChain.v and spec Fields/Doc.v; re.match as an oracle; "
          "float(int) exact only for |z|<=2^53; Decimal/date fields, StructureReference, EnumString not yet in the model. "
